@@ -214,8 +214,15 @@ def run_target(prop, binary, tier, seed, runs, workers, max_len, known_sigs=(), 
                    f"-timeout={per_input_timeout}", "-rss_limit_mb=6000", "-malloc_limit_mb=4000", "-print_final_stats=1", "-verbosity=0", "-reduce_inputs=0", cdir]
             logf = open(os.path.join(scratch, f"log{w}.txt"), "wb")
             procs.append((subprocess.Popen(cmd, env=env, stdout=logf, stderr=subprocess.STDOUT), logf, w))
+        # safety net: a worker that neither finishes nor dies (hang outside the per-case watchdogs) is killed and counted as inconclusive
+        deadline = time.time() + 5400 + per * 0.1
         for p, logf, w in procs:
-            p.wait()
+            try:
+                p.wait(timeout=max(1, deadline - time.time()))
+            except subprocess.TimeoutExpired:
+                p.kill()
+                p.wait()
+                res.noise.append({"kind": "worker-killed-by-orchestrator-watchdog", "path": f"worker {w}"})
             logf.close()
         # 3. artifacts
         for p, logf, w in procs:
